@@ -499,8 +499,15 @@ class InstanceWriteProvider(BaseProvider):
                 instance_name_copy = InstanceName.copy()
                 for ns in multi_ns:
                     instance_name_copy.namespace = ns
-                    instance_store = self.cimrepository.get_instance_store(ns)
-                    instance_store.delete(instance_name_copy)
+                    # The copies in the other namespaces may be missing,
+                    # e.g. when the instance was added with add_cimobjects()
+                    try:
+                        instance_store = \
+                            self.cimrepository.get_instance_store(ns)
+                    except KeyError:
+                        continue
+                    if instance_store.object_exists(instance_name_copy):
+                        instance_store.delete(instance_name_copy)
             else:
                 instance_store = \
                     self.cimrepository.get_instance_store(namespace)
